@@ -86,6 +86,8 @@ pub struct Incarnation {
 
 #[derive(Clone, Debug, Default)]
 pub struct Trace {
+    /// Scenario::file_times (applied to the file a reader attaches to as well)
+    pub file_times: u8,
     pub init_snap: Option<Vec<u8>>,
     pub events: Vec<Event>,
     pub mem: Mem,
@@ -911,6 +913,27 @@ pub struct Scenario {
     /// 0: every word of publication k carries k; 1: consecutive publications differ in the status word only;
     /// 2: real records alternate with the all-zero placeholder; 3: the same record is published repeatedly
     pub family: u8,
+    /// what the segment file's time stamps say when a daemon (re)starts on it and when a client attaches:
+    /// 0 whatever the file system put there (just now); 1 last touched 2400 s ago (a daemon that had been up
+    /// for 40 minutes: stores through the mapping do not move st_mtime); 2 January 2001 (before this machine
+    /// booted: the wall clock was stepped since); 3 one hour in the future (the wall clock was stepped back)
+    pub file_times: u8,
+}
+
+/// Apply `Scenario::file_times` to a file.
+pub fn stamp_file(path: &Path, mode: u8) {
+    let secs: i64 = match mode {
+        1 => (crate::common::vclock::raw_real_s() as i64) - 2400,
+        2 => 978_307_200,
+        3 => (crate::common::vclock::raw_real_s() as i64) + 3600,
+        _ => return,
+    };
+    if let Ok(c) = CString::new(path.to_str().unwrap_or("")) {
+        let t = libc::timespec { tv_sec: secs, tv_nsec: 0 };
+        let times = [t, t];
+        // SAFETY: valid path and array of two timespecs
+        unsafe { libc::utimensat(libc::AT_FDCWD, c.as_ptr(), times.as_ptr(), 0) };
+    }
 }
 
 impl Scenario {
@@ -922,6 +945,7 @@ impl Scenario {
             "incarnations": self.incs.iter().map(|(k, c)| serde_json::json!({"writes": k, "crash_after_event": c})).collect::<Vec<_>>(),
             "record_chunks": self.chunks,
             "record_family": self.family,
+            "segment_file_times": self.file_times,
         })
     }
     pub fn from_json(v: &serde_json::Value) -> Scenario {
@@ -937,6 +961,7 @@ impl Scenario {
             incs: v["incarnations"].as_array().unwrap().iter().map(|i| (i["writes"].as_u64().unwrap() as usize, i["crash_after_event"].as_u64().map(|c| c as u32))).collect(),
             chunks: v["record_chunks"].as_u64().unwrap() as usize,
             family: v["record_family"].as_u64().unwrap_or(0) as u8,
+            file_times: v["segment_file_times"].as_u64().unwrap_or(0) as u8,
         }
     }
 }
@@ -1069,11 +1094,13 @@ fn record_trace_inner(sc: &Scenario, dir: &Path) -> Result<Trace, String> {
         e.trace.chunks = chunks.clone();
         e.trace.mem = Mem::new(LOC_DATA + chunks.len());
         e.trace.init_snap = std::fs::read(&path).ok();
+        e.trace.file_times = sc.file_times;
         e.role = Role::Writer;
         e.absorb_file(0);
     });
     let mut next_k = 1i64;
     for (inc, (writes, crash)) in sc.incs.iter().enumerate() {
+        stamp_file(&path, sc.file_times);
         let begin = with(|e| {
             e.cur_inc = inc;
             e.cur_span = None;
@@ -1347,6 +1374,7 @@ pub fn explore_reader(
     let snap = trace.snap_at(attach).cloned();
     if let Some(s) = &snap {
         std::fs::write(&rpath, s).map_err(|e| e.to_string())?;
+        stamp_file(&rpath, trace.file_times);
     }
     let file_valid = snap.as_ref().map(|s| reference_valid(s)).unwrap_or(false);
     let rfile = file_id(&rpath);
@@ -1508,6 +1536,7 @@ pub fn replay_path(trace: &Trace, cfg: &ExploreCfg, attach: u32, path: &[Vec<u32
     let _ = std::fs::remove_file(&rpath);
     if let Some(s) = trace.snap_at(attach) {
         std::fs::write(&rpath, s).map_err(|e| e.to_string())?;
+        stamp_file(&rpath, trace.file_times);
     }
     let rfile = file_id(&rpath);
     with(|e| {
